@@ -41,7 +41,8 @@ var c12Entries = []string{"NewList", "NewListOf", "NewListFrom", "Add", "Insert"
 	"ObjMap", "ObjMapValues", "ObjMapInts", "ObjMapStrings", "ObjMapFloats", "ObjMapBools", "ObjMapObjects", "ObjMapLists", "ObjMapAsync", "Direct"}
 
 var unsupportedTypes = []string{"time", "struct", "ptr", "slice_int8", "bytes", "map_string_int8", "map_int_string", "array", "complex", "uintptr", "chan", "func",
-	"jsonNumber", "namedint", "namedstring", "slice_uint", "slice_float32", "slice_slice_any", "map_string_slice_any", "slice_int64", "map_string_float32", "error"}
+	"jsonNumber", "namedint", "namedstring", "slice_uint", "slice_float32", "slice_slice_any", "map_string_slice_any", "slice_int64", "map_string_float32", "error",
+	"nil_ptr_int", "nil_ptr_struct", "nil_ptr_slice_any", "nil_func", "nil_chan", "nil_ptr_ptr_string", "ptr_string", "nil_error_ptr"}
 
 var intTypes = []string{"int", "int8", "int16", "int32", "int64", "uint", "uint8", "uint16", "uint32", "uint64"}
 
@@ -452,6 +453,24 @@ func toGo(tv TV) any {
 		return map[string]float32{"a": 1}
 	case "error":
 		return errf("an error value")
+	// typed nil values of unsupported types are not the nil interface value: they are unsupported too
+	case "nil_ptr_int":
+		return (*int)(nil)
+	case "nil_ptr_struct":
+		return (*myStruct)(nil)
+	case "nil_ptr_slice_any":
+		return (*[]any)(nil)
+	case "nil_func":
+		return (func())(nil)
+	case "nil_chan":
+		return (chan int)(nil)
+	case "nil_ptr_ptr_string":
+		return (**string)(nil)
+	case "ptr_string":
+		x := "s"
+		return &x
+	case "nil_error_ptr":
+		return (*HangError)(nil)
 	}
 	panic("toGo: unknown type " + tv.T)
 }
@@ -856,6 +875,6 @@ func CheckC12(c *C12Case, st *Stats) error {
 
 func init() {
 	Register("C12",
-		"Go values of every supported dynamic type over full ranges (int8..int64, uint8..uint64 and uint up to MaxInt with width edges, float32 incl. subnormals/MaxFloat32/0.1f/-0, float64, string, bool, nil, Object and List by reference, the 7 slice and 7 map flavours incl. nil and empty and nil interface entries in the Object/List flavours, []any / map[string]any nested to depth 3) and 22 unsupported types (time.Time, struct, pointer, []int8, []byte, map[string]int8, map[int]string, array, complex, uintptr, chan, func, json.Number, named int/string, []uint, []float32, [][]any, ...), also nested inside []any/map[string]any, x 35 entry points (constructors, Add, Insert, Replace, Set, tree-form writes incl. padding and nested paths, the results of every Map variant on lists and objects incl. MapAsync, and NewListFrom/NewObjectFrom called directly). Oracle: an independent type switch in the harness gives the expected kind/value; Get returns exactly nil/int/float64/string/bool/Object/List, TypeOf agrees, the matching typed getter returns the value and the five others panic, content equals the expected tree bit-exactly, containers passed by reference keep identity; unsupported values make the call panic and leave a pre-existing container unchanged. Non-trivial = any value whose Go type is not already canonical. Distinct = distinct FNV-64a hash of the case JSON.",
+		"Go values of every supported dynamic type over full ranges (int8..int64, uint8..uint64 and uint up to MaxInt with width edges, float32 incl. subnormals/MaxFloat32/0.1f/-0, float64, string, bool, nil, Object and List by reference, the 7 slice and 7 map flavours incl. nil and empty and nil interface entries in the Object/List flavours, []any / map[string]any nested to depth 3) and 30 unsupported types (time.Time, struct, pointer, typed nil pointers / func / chan, []int8, []byte, map[string]int8, map[int]string, array, complex, uintptr, chan, func, json.Number, named int/string, []uint, []float32, [][]any, ...), also nested inside []any/map[string]any, x 35 entry points (constructors, Add, Insert, Replace, Set, tree-form writes incl. padding and nested paths, the results of every Map variant on lists and objects incl. MapAsync, and NewListFrom/NewObjectFrom called directly). Oracle: an independent type switch in the harness gives the expected kind/value; Get returns exactly nil/int/float64/string/bool/Object/List, TypeOf agrees, the matching typed getter returns the value and the five others panic, content equals the expected tree bit-exactly, containers passed by reference keep identity; unsupported values make the call panic and leave a pre-existing container unchanged. Non-trivial = any value whose Go type is not already canonical. Distinct = distinct FNV-64a hash of the case JSON.",
 		GenC12, CheckC12)
 }
